@@ -134,10 +134,10 @@ def gen_prog(rng, maxops):
             nvars += 1
         elif r < 0.36:
             op = rng.choice(["mul", "div", "add", "sub"])
-            prog.append(["binnum", op, var(), rng.choice([2, 0.5, 3]), rng.random() < 0.5])
+            prog.append(["binnum", op, var(), rng.choice([2, 0.5, 3, 1]), rng.random() < 0.5])
             nvars += 1
         elif r < 0.42:
-            prog.append(["pow", var(), rng.choice([2, 3, [1, 2], -1, 0])])
+            prog.append(["pow", var(), rng.choice([2, 3, [1, 2], -1, 0, 1])])
             nvars += 1
         elif r < 0.47:
             prog.append(["neg", var()])
@@ -255,9 +255,24 @@ class Impl:
         self.mops = []        # model ops (JSON)
         self.step_of_mop = []
         self.trace = []       # per harness step: dict
+        self.prog = []        # the program as executed (references normalised)
 
     def mi(self, i):
         return self.hvar[i]
+
+    def normalise(self, op):
+        """generated references are reduced modulo the number of quantities that really exist (an operation
+        that raised created none); `self.prog` is the program as executed"""
+        nv = len(self.hvar)
+        op = json.loads(json.dumps(op))
+        if nv == 0:
+            return op
+        for pos, v in refs(op):
+            if pos == "arg":
+                op[2][1] = v % nv
+            else:
+                op[pos] = v % nv
+        return op
 
     def add_var(self, q, prov):
         self.hvar.append(len(self.vars))
@@ -279,6 +294,8 @@ class Impl:
         with warnings.catch_warnings(), np.errstate(all="ignore"):
             warnings.simplefilter("ignore")
             for n, op in enumerate(prog):
+                op = self.normalise(op)
+                self.prog.append(op)
                 before = self.observations()
                 rec = {"op": op, "ok": True, "allowed": [], "roles": {}}
                 try:
@@ -358,14 +375,12 @@ class Impl:
                     f = {"add": lambda: n_ + x, "sub": lambda: n_ - x, "mul": lambda: n_ * x, "div": lambda: n_ / x}[name]
                 else:
                     f = {"add": lambda: x + n_, "sub": lambda: x - n_, "mul": lambda: x * n_, "div": lambda: x / n_}[name]
-            ok, r = call(f)
-            facts["ok"] = ok
-            emit([name, ia, ib, facts])
-            if ok or name in ("mul", "div"):
-                if not ok:
-                    raise _Broken("model assumes * and / cannot raise")
-                self.add_var(r, name)
             rec["name"] = name
+            ok, r = call(f)
+            if not ok:
+                raise _Skip()           # raised: nothing is created on either side (operands still judged)
+            emit([name, ia, ib, facts])
+            self.add_var(r, name)
             return
         if kind == "pow":
             a = V(op[1])
@@ -375,9 +390,9 @@ class Impl:
                 facts = dim_facts(a.baseunits * p)
             except Exception:
                 pass
-            ok, r = call(lambda: a ** p)
             rec["roles"] = {op[1]: "operand"}
             rec["name"] = "pow"
+            ok, r = call(lambda: a ** p)
             if not ok:
                 raise _Skip()          # e.g. Decimal ** float: nothing is created on either side
             emit(["pow", self.mi(op[1]), facts])
@@ -385,9 +400,9 @@ class Impl:
             return
         if kind == "neg":
             a = V(op[1])
-            ok, r = call(lambda: -a)
             rec["roles"] = {op[1]: "operand"}
             rec["name"] = "neg"
+            ok, r = call(lambda: -a)
             if not ok:
                 raise _Skip()
             emit(["neg", self.mi(op[1]), dim_facts(a.baseunits)])
@@ -415,10 +430,11 @@ class Impl:
             except Exception:
                 pass
             rhs = b if kind == "cmp" else op[2]
-            ok, _r = call((lambda: a == rhs) if name == "eq" else (lambda: a != rhs))
-            facts["ok"] = ok
-            emit(["eq", ia, ib, facts])
             rec["name"] = name
+            ok, _r = call((lambda: a == rhs) if name == "eq" else (lambda: a != rhs))
+            if not ok:
+                raise _Skip()
+            emit(["eq", ia, ib, facts])
             return
         if kind == "ufunc":
             name = op[1]
@@ -438,40 +454,34 @@ class Impl:
                 pass
             fn = {"power": lambda: np.power(a, 2), "negative_ufunc": lambda: np.negative(a)}.get(
                 name, lambda: getattr(np, name)(a))
-            ok, r = call(fn)
-            facts["ok"] = ok
             rec["roles"] = {op[2]: "operand"}
             rec["name"] = "ufunc." + name
-            if uk == "test":
-                emit(["ufunc", uk, self.mi(op[2]), facts])
-                return
+            ok, r = call(fn)
             if not ok:
-                if uk in ("root", "keep", "sum"):
-                    raise _Skip()       # numpy itself refused the magnitude type (Decimal): nothing created
-                emit(["ufunc", uk, self.mi(op[2]), facts])
-                return
+                raise _Skip()
             emit(["ufunc", uk, self.mi(op[2]), facts])
-            self.add_var(r, "ufunc." + name)
+            if uk != "test":
+                self.add_var(r, "ufunc." + name)
             return
         if kind == "space":
             a, b = V(op[2]), V(op[3])
             facts = dim_facts(a.baseunits)
             facts["linear"] = conv_facts(b.baseunits, a.baseunits)["linear"]
             fn = np.linspace if op[1] == "lin" else np.logspace
-            ok, r = call(lambda: fn(a, b, 3))
-            facts["ok"] = ok
             rec["roles"] = {op[3]: "right", op[2]: "left"} if op[2] != op[3] else {op[2]: "both"}
             rec["name"] = op[1] + "space"
+            ok, r = call(lambda: fn(a, b, 3))
+            if not ok:
+                raise _Skip()
             emit(["space", self.mi(op[2]), self.mi(op[3]), facts])
-            if ok:
-                self.add_var(r, rec["name"])
+            self.add_var(r, rec["name"])
             return
         if kind == "space1":
             b = V(op[2])
             fn = np.linspace if op[1] == "lin" else np.logspace
-            ok, r = call((lambda: fn(op[3], b, 3)) if op[4] else (lambda: fn(b, op[3], 3)))
             rec["roles"] = {op[2]: "operand"}
             rec["name"] = op[1] + "space"
+            ok, r = call((lambda: fn(op[3], b, 3)) if op[4] else (lambda: fn(b, op[3], 3)))
             if not ok:
                 raise _Skip()
             emit(["space1", self.mi(op[2]), dim_facts(b.baseunits)])
@@ -486,10 +496,11 @@ class Impl:
                 facts["linear"] = conv_facts(a.baseunits, BaseUnits(op[2]))["linear"]
             except Exception:
                 pass
-            ok, r = call(lambda: a.value(op[2]))
-            facts["ok"] = ok
             rec["roles"] = {op[1]: "operand"}
             rec["name"] = "value"
+            ok, r = call(lambda: a.value(op[2]))
+            if not ok:
+                raise _Skip()
             rec["result_array"] = isinstance(r, np.ndarray)
             if ok and isinstance(r, np.ndarray):
                 # the returned array must not be the operand's own
@@ -523,13 +534,14 @@ class Impl:
             except Exception:
                 raise _Skip()
             ok, _r = call(f)
-            facts["ok"] = ok
+            if not ok:
+                raise _Skip()           # conversion refused before anything is assigned
             emit(["to", self.mi(op[1]), marg, facts])
             return
         if kind == "rebase":
             ok, _r = call(lambda: a.rebase())
             if not ok:
-                raise _Broken("model assumes rebase cannot raise")
+                raise _Skip()
             emit(["rebase", self.mi(op[1])])
             return
         if kind == "abse":
@@ -607,6 +619,8 @@ def short(o):
             return str(np.frombuffer(bytes.fromhex(v[3]), dtype=np.dtype(v[1])).tolist())
         if v[0] == "f":
             return str(float.fromhex(v[1])) if v[1] not in ("nan", "inf", "-inf") else v[1]
+        if v[0] == "dec":
+            return "Decimal(%s)" % v[1]
         return str(v[1])
     return "(%s %s ±%s)" % (f(o[0]), o[1], f(o[2]))
 
@@ -705,27 +719,23 @@ def refs(op):
 
 
 def actual_creates(prog):
-    """which ops really created a quantity (depends on the run: failing ops create none)"""
-    impl = run_impl(prog)
-    out, nv = [], 0
-    for rec in impl.trace:
-        out.append(None)
-    # recompute by replaying provenance counts
-    counts = []
-    impl2 = Impl()
+    """how many quantities each op really created (depends on the run: raising ops create none)"""
     np = _np()
     from scinumtools.units import Quantity, BaseUnits
+    impl = Impl()
+    counts = []
     with warnings.catch_warnings(), np.errstate(all="ignore"):
         warnings.simplefilter("ignore")
         for op in prog:
-            before = len(impl2.hvar)
+            before = len(impl.hvar)
+            op = impl.normalise(op)
             rec = {"op": op, "ok": True, "allowed": [], "roles": {}}
             try:
-                impl2.one(op, rec, np, Quantity, BaseUnits)
+                impl.one(op, rec, np, Quantity, BaseUnits)
             except _Skip:
                 pass
-            impl2.trace.append(rec)
-            counts.append(len(impl2.hvar) - before)
+            impl.trace.append(rec)
+            counts.append(len(impl.hvar) - before)
     return counts
 
 
@@ -825,6 +835,7 @@ def run_stream(ctx, progs, stream):
         if im is None:
             continue
         r = next(it)
+        p = im.prog
         ctx.case(["prog", p], nontrivial(p), {"program": p[:10]})
         for rec in im.trace:
             ctx.count("op." + rec.get("name", rec["op"][0]))
